@@ -23,6 +23,7 @@ type res03 struct {
 	coqRes   []string
 	eff      []Op // operations actually performed (illegal ones skipped)
 	cut      int  // with a violation: the number of leading operations that produced it
+	sig      sigState
 	viol     *violation
 	panicked bool
 	stats    counts
@@ -71,12 +72,14 @@ func runC03(c Case) (res *res03) {
 		if res.viol == nil {
 			res.viol = &violation{kind: kind, what: fmt.Sprintf(f, a...)}
 			res.cut = at + 1
+			res.sig.snapshot(tree)
 		}
 	}
 	defer func() {
 		if p := recover(); p != nil {
 			res.viol = &violation{kind: "panic", what: fmt.Sprintf("implementation panicked: %v", p)}
 			res.cut = at + 1
+			res.sig.snapshot(tree)
 			debugStack()
 			res.panicked = true
 		}
@@ -94,9 +97,12 @@ func runC03(c Case) (res *res03) {
 		return
 	}
 	tree = mkvs.New(nil, e.ndb, node.RootTypeState, treeOptions(c)...)
+	// every call on the tree (ours and the overlays') goes through st, which scans after it
+	st := &scanTree{Tree: tree}
+	st.scan = func() { res.sig.scan(st.Tree) }
 	top := func() mkvs.KeyValueTree {
 		if len(stack) == 0 {
-			return tree
+			return st
 		}
 		return stack[len(stack)-1]
 	}
@@ -125,7 +131,12 @@ func runC03(c Case) (res *res03) {
 				fail("error", "unexpected error: op %d Insert: %v", i, err)
 				return
 			}
+			_, had := cur()[string(o.Key)]
 			cur()[string(o.Key)] = o.Val
+			if len(stack) == 0 && !had {
+				res.sig.depth(levels[0])
+			}
+			res.sig.scan(tree)
 			coqOp = "SIns " + coqBytes(o.Key) + " " + coqBytes(o.Val)
 		case "rem":
 			if err = top().Remove(ctx, nn(o.Key)); err != nil {
@@ -133,6 +144,7 @@ func runC03(c Case) (res *res03) {
 				return
 			}
 			delete(cur(), string(o.Key))
+			res.sig.scan(tree)
 			coqOp = "SRem " + coqBytes(o.Key)
 		case "remex", "get":
 			var v []byte
@@ -143,6 +155,7 @@ func runC03(c Case) (res *res03) {
 				v, err = top().RemoveExisting(ctx, nn(o.Key))
 				coqOp = "SRemEx " + coqBytes(o.Key)
 			}
+			res.sig.scan(tree)
 			if err != nil {
 				fail("error", "unexpected error: op %d %s: %v", i, o.K, err)
 				return
@@ -190,6 +203,7 @@ func runC03(c Case) (res *res03) {
 				}
 				err = it.Err()
 			}()
+			res.sig.scan(tree)
 			if err != nil {
 				fail("error", "unexpected error: op %d iterator: %v", i, err)
 				return
@@ -231,6 +245,7 @@ func runC03(c Case) (res *res03) {
 			}
 			coqOp = fmt.Sprintf("(SIter %s %d%%nat)", coqBytes(seek), o.N)
 		case "tcommit":
+			res.sig.scan(tree)
 			_, h, err := tree.Commit(ctx, ns, version)
 			if err != nil {
 				fail("error", "unexpected error: op %d Commit(version %d): %v", i, version, err)
@@ -252,6 +267,7 @@ func runC03(c Case) (res *res03) {
 			}
 			tree.Close()
 			tree = mkvs.NewWithRoot(nil, e.ndb, lastRoot, treeOptions(c)...)
+			st.Tree = tree
 			levels[0] = copyMap(committed)
 			res.reopens++
 			coqOp = "SReopen"
@@ -275,6 +291,10 @@ func runC03(c Case) (res *res03) {
 				return
 			}
 			levels[len(levels)-2] = copyMap(cur())
+			if len(levels) == 2 {
+				res.sig.depth(levels[0])
+			}
+			res.sig.scan(tree)
 			coqOp = "SOvCommit"
 		case "ovdiscard":
 			if len(stack) == 0 {
@@ -321,10 +341,16 @@ func genC03(r *prng.R) Case {
 	c.UseLog = r.Chance(50)
 	g := newKeygen(r)
 	n := r.Range(1, 80)
+	long := longHistory(r, c)
+	if long {
+		n = r.Range(40, 160)
+	}
 	depth, commits := 0, 0
 	for len(c.Ops) < n {
 		x := r.Intn(100)
 		switch {
+		case long && r.Chance(30):
+			c.Ops = append(c.Ops, Op{K: "ins", Key: g.newKey(), Val: g.val()})
 		case x < 25:
 			c.Ops = append(c.Ops, Op{K: "ins", Key: g.key(), Val: g.val()})
 		case x < 35:
@@ -382,13 +408,14 @@ func genC03(r *prng.R) Case {
 
 // shrink03 greedily drops operations while the oracle reports the same kind
 // of violation; operations that became illegal are dropped from the description.
-func shrink03(c Case, kind string, cut int) Case {
+func shrink03(c Case, cut int, accept func(cand Case, r *res03) bool) Case {
 	test := func(ops []Op) ([]Op, bool) {
-		r := runC03(c.withOps(ops))
-		if r.viol == nil || r.viol.kind != kind {
+		cand := c.withOps(ops)
+		r := runC03(cand)
+		if r.viol == nil || !accept(cand, r) {
 			return nil, false
 		}
-		if r.panicked || kind == "error" {
+		if r.panicked || r.viol.kind == "error" {
 			return ops, true // the run stopped early: keep the description as it is
 		}
 		// everything after the first failing answer is irrelevant, but kept simple: what was performed
@@ -406,7 +433,7 @@ func shrink03(c Case, kind string, cut int) Case {
 
 func mainC03(seed uint64, n int, out string, rp *replayInput) {
 	w := coqout.NewWriter(out, coqHeader, "run_c03", "c03_eqb", 25)
-	sum := coqout.NewSummary("seeded histories (1-80 operations: insert, remove, remove-existing, get, seek/rewind iteration of up to n+1 items, tree commit, close+reopen at the committed root, overlay push/commit/discard/copy up to depth 4) on the real tree (with and without write log) over backends mem/badger/pathbadger with node capacities {0,1,2,3,8,5000} and value capacities {0,1,16,64,16M}; keys of 0-4 bytes over {00,01,80,ff} plus long keys, values of 0-8 bytes; " +
+	sum := coqout.NewSummary("seeded histories (1-80 operations: insert, remove, remove-existing, get, seek/rewind iteration of up to n+1 items, tree commit, close+reopen at the committed root, overlay push/commit/discard/copy up to depth 4) on the real tree (with and without write log) over backends mem/badger/pathbadger with node capacities {0,1,2,3,8,16,32,5000} (long histories of 40-160 operations biased to new keys for about 20% of the cases) and value capacities {0,1,16,64,16M}; keys of 0-4 bytes over {00,01,80,ff} plus long keys, values of 0-8 bytes; " +
 		"compared: the answer of every operation; non-trivial = the case has at least one overlay push and at least one iteration or remove-existing with a non-empty answer; distinct = distinct operation-kind sequences among those")
 	defer func() {
 		w.Close()
@@ -440,17 +467,45 @@ func mainC03(seed uint64, n int, out string, rp *replayInput) {
 		if len(c.Ops) <= 10 && len(c.Ops) >= 3 {
 			sum.Sample(map[string]any{"desc": c}, 3)
 		}
-		if r.viol != nil {
-			sum.Count("violations", r.viol.kind+"/"+c.Backend)
-			sc, what := c, r.viol.what
-			if firstOfItsKind(r.viol.kind, c) {
-				sc = shrink03(c, r.viol.kind, r.cut)
-				if r2 := runC03(sc); r2.viol != nil {
-					what = r2.viol.what
-				}
+		if r.viol == nil {
+			if r.sig.f1 {
+				sum.Count("sig_without_failure", "dirty_node_with_evicted_leaf")
 			}
-			sum.Violations = append(sum.Violations, map[string]any{"what": what, "case": sc, "evicting_config": evicting(c)})
+			if r.sig.f2 {
+				sum.Count("sig_without_failure", "dirty_pointer_without_node")
+			}
+			return
 		}
+		if key, mech := classify(c, r.sig.failF1, r.sig.failDepth); key != "" {
+			recordFinding(sum, key, mech+r.viol.what, c, r.sig, func() (Case, string) {
+				sc := shrink03(c, r.cut, func(cand Case, rc *res03) bool {
+					k, _ := classify(cand, rc.sig.failF1, rc.sig.failDepth)
+					return k == key
+				})
+				what := mech + r.viol.what
+				if r2 := runC03(sc); r2.viol != nil {
+					_, m2 := classify(sc, r2.sig.failF1, r2.sig.failDepth)
+					what = m2 + r2.viol.what
+				}
+				return sc, what
+			})
+			return
+		}
+		sum.Count("violations", r.viol.kind+"/"+c.Backend)
+		sc, what := c, r.viol.what
+		if firstOfItsKind(r.viol.kind, c) {
+			kind := r.viol.kind
+			sc = shrink03(c, r.cut, func(cand Case, rc *res03) bool {
+				k, _ := classify(cand, rc.sig.failF1, rc.sig.failDepth)
+				return rc.viol.kind == kind && k == ""
+			})
+			if r2 := runC03(sc); r2.viol != nil {
+				what = r2.viol.what
+			}
+		}
+		sum.Violations = append(sum.Violations, map[string]any{"what": what, "case": sc, "evicting_config": evicting(c),
+			"node_cap_vs_max_path_depth":       fmt.Sprintf("%d vs %d", c.NodeCap, r.sig.failDepth),
+			"sig_dirty_node_with_evicted_leaf": r.sig.failF1, "sig_dirty_pointer_without_node": r.sig.failF2})
 	}
 	if rp != nil {
 		if rp.single != nil {
